@@ -353,7 +353,9 @@ type w12World struct {
 	startGate chan struct{}
 	nextID    int
 
-	pkts []*w12Pkt
+	pkts      []w12Pkt
+	failovers int
+	disturbed bool // see pushMany
 
 	// effective configuration (read back after fillDefaults)
 	reconnectDelay, dialTimeout, writeTimeout time.Duration
@@ -561,7 +563,7 @@ func (w *w12World) observe() {
 					w.fail("stream_format", "unknown-packet", "conn c%d: frame carries packet #%d which was never accepted", c.id, idx)
 					break
 				}
-				p := w.pkts[idx]
+				p := &w.pkts[idx]
 				if !bytes.Equal(body, w12Payload(idx, p.n)) {
 					flush()
 					w.fail("byte_for_byte", "payload-differs", "conn c%d: packet #%d arrived with %d bytes differing from the %d accepted", c.id, idx, n, p.n)
@@ -663,11 +665,13 @@ func (w *w12World) bufFill(b *pktBuffer) (wi int, full bool) {
 	return b.wi, b.wi >= bufferLen
 }
 
-// push hands one packet to the ingress handler and classifies the outcome.
-func (w *w12World) push(n int) (accepted bool) {
+// push hands one packet to the ingress handler and classifies the outcome (white-box: a packet
+// was buffered iff the fill of the two write buffers grew by one). It is kept cheap: a burst must
+// not run long enough for the Go runtime to preempt the scheduler goroutine in the middle of it.
+// Returns false if a sender visibly ran during the call (see disturbed).
+func (w *w12World) push(body []byte) bool {
 	r := w.r
 	idx := len(w.pkts)
-	body := w12Payload(idx, n)
 	pool := w.eg.pool
 	wi1, full1 := w.bufFill(pool.primary.buf)
 	wi2, full2 := w.bufFill(pool.secondary.buf)
@@ -678,20 +682,20 @@ func (w *w12World) push(n int) (accepted bool) {
 		_ = w.h.HandleMetricsBatchRaw(body)
 	}()
 	if r.Failed() {
-		return false
+		return true
 	}
 	wi1b, _ := w.bufFill(pool.primary.buf)
 	wi2b, _ := w.bufFill(pool.secondary.buf)
-	accepted = wi1b+wi2b == wi1+wi2+1
+	if wi1b < wi1 || wi2b < wi2 {
+		return false
+	}
+	accepted := wi1b+wi2b == wi1+wi2+1
 	dd := w.eg.stats.droppedPackets.Load() - d0
-	w.pkts = append(w.pkts, &w12Pkt{n: len(body), tAccept: w.now(), accepted: accepted, seenConn: -1})
-	r.Extra["packets_offered"]++
+	w.pkts = append(w.pkts, w12Pkt{n: len(body), tAccept: w.now(), accepted: accepted, seenConn: -1})
 	if *pool.primPtr != prim0 {
-		r.Probe("failover_to_other_sender")
-		r.Event("balancer", "t=%v pkt #%d went to the other sender (roles swapped)", w.now(), idx)
+		w.failovers++
 	}
 	if accepted {
-		r.Extra["packets_accepted"]++
 		if dd != 0 {
 			w.fail("drop_counted", "counted-without-drop", "packet #%d was buffered but DroppedPackets grew by %d", idx, dd)
 		}
@@ -700,24 +704,24 @@ func (w *w12World) push(n int) (accepted bool) {
 	w.droppedCount++
 	w.droppedFrames += int64(pktHeadLen + len(body))
 	w.droppedBodies += int64(len(body))
-	r.Probe("packet_dropped")
-	r.Extra["packets_dropped"]++
 	if !(full1 && full2) {
-		w.fail("drop_only_when_full", "dropped-with-room", "packet #%d refused while buffers held %d and %d of %d", idx, wi1, wi2, bufferLen)
-		return false
+		w.fail("drop_only_when_full", "dropped-with-room", "packet #%d refused while the write buffers held %d and %d of %d", idx, wi1, wi2, bufferLen)
+		return true
 	}
 	if dd != 1 {
 		w.fail("drop_counted", "drop-not-counted", "packet #%d refused (both buffers full) but DroppedPackets grew by %d", idx, dd)
 	}
-	return false
+	return true
 }
 
+// pushMany offers k packets at one simulated instant. yieldEvery = j > 0 lets the senders run (to
+// quiescence) after every j packets; 0 = the whole burst arrives before any sender is scheduled.
 func (w *w12World) pushMany(k, sizeClass, yieldEvery int) {
 	r := w.r
 	first := len(w.pkts)
-	acc := 0
-	for i := 0; i < k && !r.Failed(); i++ {
-		idx := len(w.pkts)
+	bodies := make([][]byte, k)
+	for i := range bodies {
+		idx := first + i
 		var n int
 		switch sizeClass {
 		case 0:
@@ -730,15 +734,40 @@ func (w *w12World) pushMany(k, sizeClass, yieldEvery int) {
 				n = pktBodyMax - int(r.C.Keyed(3, uint64(idx), 4))
 			}
 		}
-		if w.push(n) {
-			acc++
+		bodies[i] = w12Payload(idx, n)
+	}
+	if cap(w.pkts)-len(w.pkts) < k {
+		w.pkts = append(make([]w12Pkt, 0, 2*(len(w.pkts)+k)), w.pkts...)
+	}
+	drop0, fo0 := w.droppedCount, w.failovers
+	runtime.Gosched() // fresh time slice for the burst
+	for i := 0; i < k && !r.Failed(); i++ {
+		if !w.push(bodies[i]) {
+			// The runtime preempted this goroutine inside the burst and a sender consumed a buffer
+			// half way: the run no longer follows its choice vector. Abandon it without a verdict.
+			w.disturbed = true
+			r.Extra["runs_abandoned_preempted_burst"]++
+			r.Event("sim", "run abandoned: scheduler goroutine was preempted inside a burst")
+			return
 		}
 		if yieldEvery > 0 && (i+1)%yieldEvery == 0 && i+1 < k {
 			time.Sleep(time.Microsecond)
 			verifsim.Wait()
+			runtime.Gosched()
 		}
 	}
-	r.Event("ingress", "t=%v offered pkts %d..%d accepted %d dropped %d", w.now(), first, len(w.pkts)-1, acc, len(w.pkts)-first-acc)
+	n := len(w.pkts) - first
+	dropped := w.droppedCount - drop0
+	r.Extra["packets_offered"] += n
+	r.Extra["packets_accepted"] += n - dropped
+	r.Extra["packets_dropped"] += dropped
+	if dropped > 0 {
+		r.Probe("packet_dropped")
+	}
+	if w.failovers > fo0 {
+		r.Probe("failover_to_other_sender")
+	}
+	r.Event("ingress", "t=%v offered pkts %d..%d accepted %d dropped %d sender_switches %d", w.now(), first, len(w.pkts)-1, n-dropped, dropped, w.failovers-fo0)
 }
 
 func w12Pick[T any](r *verifsim.Run, label string, vals ...T) T {
@@ -853,7 +882,7 @@ func w12Run(r *verifsim.Run) {
 		aAddr
 		aHeal
 	)
-	for step := 0; step < nsteps && !r.Failed(); step++ {
+	for step := 0; step < nsteps && !r.Failed() && !w.disturbed; step++ {
 		acts := []int{aPush1, aSleep, aBurst, aPush1, aSleep, aBurst}
 		if faultClass >= 1 {
 			if len(w.openConns()) > 0 {
@@ -973,6 +1002,10 @@ func w12Run(r *verifsim.Run) {
 	}
 
 	// ---- end: heal everything, then SILENCE long enough for every bound to expire
+	if w.disturbed {
+		r.SimNanos = int64(w.now())
+		return
+	}
 	if !r.Failed() {
 		w.heal()
 		w.tick(0)
@@ -1050,7 +1083,8 @@ func (w *w12World) finalChecks() {
 	}
 
 	// bounded delay, checked only where the upstream was healthy around the acceptance
-	for idx, p := range w.pkts {
+	for idx := range w.pkts {
+		p := &w.pkts[idx]
 		if !p.accepted {
 			continue
 		}
@@ -1087,7 +1121,8 @@ func (w *w12World) finalChecks() {
 	// every accepted packet was forwarded, or its loss is tied to an upstream fault
 	lost, lostExcused := 0, 0
 	firstLost := -1
-	for idx, p := range w.pkts {
+	for idx := range w.pkts {
+		p := &w.pkts[idx]
 		if !p.accepted || p.seen > 0 {
 			continue
 		}
